@@ -729,6 +729,11 @@ func (c *Ctx) abstractCall(x *ast.CallExpr, fn *types.Func, st *State) []Val {
 			case PtrV:
 				if v.Struct() != nil {
 					c.havocObject(st, v)
+					if fn != nil && c.prog.inRepo(fn) {
+						// an unverified function of this repository receives the object: for the write frame this is a
+						// possible store to any of its fields
+						c.stores = append(c.stores, StoreRec{Key: "fld:" + v.TypeName() + ".*(passed to " + name + ")", Ref: v.Ref, Guard: st.guard, Pos: c.pos(x.Pos())})
+					}
 				}
 			case SliceV:
 				if v.Region != "" {
